@@ -1,3 +1,4 @@
+import reprlib
 import sys
 from collections.abc import MutableSequence, MutableSet, Sequence
 from typing import Any, Callable, Generic, Iterable, Optional, Tuple, Type, TypeVar
@@ -408,6 +409,7 @@ class KeyedSet(Generic[ItemType, KeyType], MutableSet, KeyedBase):  # pylint: di
                 return False
         return NotImplemented
 
+    @reprlib.recursive_repr(fillvalue="KeyedSet(...)")
     def __repr__(self):
         return f"{type_label(self._type)}({{{', '.join(repr(value) for value in self._dict.values())}}})"
 
